@@ -120,6 +120,12 @@ inductive FaultStep (cfg : Cfg) : Req → StreamEv → Obs → Prop
   | finFirst (r : Req) (s' : FSt) :
       cfg.role = .server → fsSrc.pollNext r.rx.src = (.none, s') → live cfg r .head →
       FaultStep cfg r (.call .head) (.ans (.res (.errStream CODE_H3_REQUEST_INCOMPLETE)))
+  /-- client: the response stream ends before any HEADERS ⇒ stream error H3_MESSAGE_ERROR (the
+      response is missing: "an invalid sequence of HTTP messages", RFC 9114 §4.1.2; repaired by
+      6945722 — before, the connection error H3_FRAME_UNEXPECTED: finding D-07a) -/
+  | finFirstClient (r : Req) (s' : FSt) :
+      cfg.role = .client → fsSrc.pollNext r.rx.src = (.none, s') → live cfg r .head →
+      FaultStep cfg r (.call .head) (.ans (.res (.errStream CODE_H3_MESSAGE_ERROR)))
 
 /-- what a fault transition does, as a step of the request: the demanded answer, the cell as found -/
 theorem fault_step (cfg : Cfg) (r : Req) (ev : StreamEv) (o : Obs) (hf : FaultStep cfg r ev o)
@@ -189,6 +195,8 @@ theorem fault_step (cfg : Cfg) (r : Req) (ev : StreamEv) (o : Obs) (hf : FaultSt
     rw [Req.step_live cfg cell r _ hl, stepTrailers_tooBig_fin cfg cell r enc s' ht he hn hm]
   | finFirst s' hrole hn hl =>
     rw [Req.step_live cfg cell r _ hl, stepHead_finFirst cfg cell r s' hrole hn]
+  | finFirstClient s' hrole hn hl =>
+    rw [Req.step_live cfg cell r _ hl, stepHead_finFirst_client cfg cell r s' hrole hn]
 
 theorem fault_not_conn (cfg : Cfg) (r : Req) (ev : StreamEv) (o : Obs) (hf : FaultStep cfg r ev o) :
     o.isConn = false := by
@@ -223,7 +231,8 @@ theorem C07_stream_fault_is_local (cfg : Cfg) (c : Conn) (i : Nat) (ev : StreamE
 
 /-- **What h3 does on the faulted stream itself** (as the code does): a malformed head ⇒
     STOP_SENDING(H3_MESSAGE_ERROR), and on a server also RESET_STREAM(H3_MESSAGE_ERROR) and the
-    resolver is gone; FIN before HEADERS ⇒ RESET_STREAM(H3_REQUEST_INCOMPLETE); an oversized response
+    resolver is gone; FIN before HEADERS ⇒ on a server RESET_STREAM(H3_REQUEST_INCOMPLETE), on a client
+    nothing is sent (the receive side is over) and the handle stays; an oversized response
     ⇒ STOP_SENDING(H3_REQUEST_CANCELLED); an oversized request ⇒ the 431 HEADERS frame appended to
     what was written on THAT stream, no reset; a RESET met by a call, a STOP_SENDING met by a send
     call ⇒ nothing is sent, nothing written (`first old c` = `c` unless one was sent before). -/
@@ -238,6 +247,9 @@ theorem C07_fault_reaction (cfg : Cfg) (cell : Option Nat) (r : Req) :
       let r' := (Req.step cfg cell r (.call .head)).1
       r'.rx.env.rst = first r.rx.env.rst CODE_H3_REQUEST_INCOMPLETE ∧ r'.rx.env.stop = r.rx.env.stop ∧
       r'.snd = r.snd ∧ r'.gone = true) ∧
+    (∀ s', cfg.role = .client → fsSrc.pollNext r.rx.src = (.none, s') → live cfg r .head →
+      let r' := (Req.step cfg cell r (.call .head)).1
+      r'.rx.env.rst = r.rx.env.rst ∧ r'.rx.env.stop = r.rx.env.stop ∧ r'.snd = r.snd ∧ r'.gone = false) ∧
     (∀ enc s', cfg.role = .client → fsSrc.pollNext r.rx.src = (.frame (.headers enc), s') →
       cfg.hdr.head enc = .tooBig → live cfg r .head →
       let r' := (Req.step cfg cell r (.call .head)).1
@@ -254,12 +266,15 @@ theorem C07_fault_reaction (cfg : Cfg) (cell : Option Nat) (r : Req) :
       r'.rx.env.rst = r.rx.env.rst ∧ r'.rx.env.stop = r.rx.env.stop ∧ r'.snd = r.snd) ∧
     (∀ c call, r.snd.stopped = some c → r.snd.fin = false → isWrite call = true → live cfg r call →
       (Req.step cfg cell r (.call call)).1 = r) := by
-  refine ⟨?_, ?_, ?_, ?_, ?_, ?_⟩
+  refine ⟨?_, ?_, ?_, ?_, ?_, ?_, ?_⟩
   · intro enc s' hn hm hl
     rw [Req.step_live cfg cell r _ hl, stepHead_malformed cfg cell r enc s' hn hm]
     exact ⟨rfl, rfl, rfl, rfl⟩
   · intro s' hrole hn hl
     rw [Req.step_live cfg cell r _ hl, stepHead_finFirst cfg cell r s' hrole hn]
+    exact ⟨rfl, rfl, rfl, rfl⟩
+  · intro s' hrole hn hl
+    rw [Req.step_live cfg cell r _ hl, stepHead_finFirst_client cfg cell r s' hrole hn]
     exact ⟨rfl, rfl, rfl, rfl⟩
   · intro enc s' hrole hn hm hl
     rw [Req.step_live cfg cell r _ hl, stepHead_tooBig_client cfg cell r enc s' hrole hn hm]
@@ -886,6 +901,20 @@ example : (run cli {} histC).2 =
 example : ((run cli {} histC).1.get 0).rx.env.stop = some 268 := by decide +kernel
 example : FaultStep cli ((run cli {} (histC.take 4)).1.get 4) (.call (.sendData [1, 2, 3])) (.ans (.res (.errReset 9))) :=
   .stopSend _ 9 _ (by decide +kernel) (by decide +kernel) rfl (by decide +kernel)
+
+/-- client: the response stream of request 0 ends before any HEADERS while request 4 is answered -/
+def histF : List HEv :=
+  [ on 0 (.call (.sendHead [0x00, 0x00, 0xd1])), on 4 (.call (.sendHead [0x00, 0x00, 0xd1])), on 0 (.peer .fin),
+    chunk 4 [0x01, 0x01, 0xaa, 0x00, 0x01, 0x07], on 0 (.call .head), .drive, on 4 (.peer .fin), on 4 (.call .head),
+    on 4 (.call (.body 9)), .drive ]
+example : FaultStep cli ((run cli {} (histF.take 4)).1.get 0) (.call .head) (.ans (.res (.errStream 270))) :=
+  .finFirstClient _ (fsSrc.pollNext ((run cli {} (histF.take 4)).1.get 0).rx.src).2 rfl (by decide +kernel)
+    (by decide +kernel)
+example : StreamScoped cli histF := by decide +kernel
+example : (run cli {} histF).2 =
+    [(0, .ok), (4, .ok), (0, .quiet), (4, .quiet), (0, .ans (.res (.errStream 270))), (4, .quiet),
+     (4, .ans (.res (.head [0xaa]))), (4, .body [.data [7], .end_] (some (.res .noTrailers)))] := by decide +kernel
+example : ((run cli {} histF).1.get 0).rx.env = {} ∧ (run cli {} histF).1.closed = [] := by decide +kernel
 
 /-! the contrast: a connection-level protocol violation (DATA before HEADERS) is NOT stream-scoped:
     the cell is written and the driver closes the connection with H3_FRAME_UNEXPECTED (the
